@@ -29,8 +29,17 @@ type Worker struct {
 
 func (w *Worker) Beat() { w.beat.Add(1) }
 
-// HangLimit is how long a single case may run before it is treated as non-terminating.
+// HangLimit is how long a worker may go without finishing a case before the case it published is suspected
+// of not terminating. A suspicion alone is never reported: the published case is first replayed alone in
+// subprocesses (confirmHang), so a slow or overloaded machine cannot raise an alarm.
 var HangLimit = 30 * time.Second
+
+// ConfirmLimit is how long the published case may run when replayed alone (cases take microseconds to seconds).
+var ConfirmLimit = 120 * time.Second
+
+// GiveUp is how long a worker may stay without progress while its published case terminates when replayed
+// alone; after that the run ends with exhaustive:false (exit 0) because a stuck goroutine cannot be cancelled.
+var GiveUp = 15 * time.Minute
 
 // Workers is the degree of parallelism.
 func Workers() int {
@@ -94,10 +103,11 @@ func Parallel(r *evid.Run, units int, mk func(w *Worker) func(unit int)) {
 
 func watchdog(r *evid.Run, ws []*Worker, done chan struct{}) {
 	last := make([]int64, len(ws))
-	since := make([]time.Time, len(ws))
+	since := make([]time.Time, len(ws))   // last observed progress
+	checked := make([]time.Time, len(ws)) // last suspicion handled
 	now := time.Now()
 	for i := range since {
-		since[i] = now
+		since[i], checked[i] = now, now
 	}
 	t := time.NewTicker(2 * time.Second)
 	defer t.Stop()
@@ -111,54 +121,52 @@ func watchdog(r *evid.Run, ws []*Worker, done chan struct{}) {
 		for i, w := range ws {
 			b := w.beat.Load()
 			if b != last[i] || !w.active.Load() {
-				last[i], since[i] = b, now
+				last[i], since[i], checked[i] = b, now, now
 				continue
 			}
-			if now.Sub(since[i]) > HangLimit {
+			if now.Sub(checked[i]) > HangLimit {
 				var desc any = "worker did not publish its case"
 				if w.Describe != nil {
 					desc = w.Describe()
 				}
-				reportHang(r, desc)
+				if confirmHang(r, desc) {
+					r.Violation(fmt.Sprintf("hang:%v", desc), "case did not terminate within "+ConfirmLimit.String()+" (replayed alone in 3 subprocesses)", desc, nil)
+					os.Exit(r.Finish())
+				}
+				if w.beat.Load() == b {
+					fmt.Fprintf(os.Stderr, "note property=%s: a worker finished no case for %.0fs, but the case it published terminates when replayed alone (slow unit or loaded machine): %.200s\n", r.Prop, time.Since(since[i]).Seconds(), mustJSON(desc))
+				}
+				checked[i] = time.Now()
+				if time.Since(since[i]) > GiveUp || (r.Expired() && time.Since(since[i]) > 4*HangLimit) {
+					r.NotExhaustive("a worker made no progress for a long time although the case it published terminates when replayed alone; the run was ended early")
+					os.Exit(r.Finish())
+				}
 			}
 		}
 	}
 }
 
-// reportHang confirms a suspected non-termination by replaying the case 5 times in
-// subprocesses under the same limit, then reports it and exits (a stuck goroutine cannot be cancelled).
-func reportHang(r *evid.Run, desc any) {
-	key := fmt.Sprintf("hang:%v", desc)
-	r.Violation(key, "case did not terminate within "+HangLimit.String(), desc, nil)
-	if r.Violations() == 0 { // listed as a known finding: cannot continue past a stuck worker anyway
-		fmt.Fprintln(os.Stderr, "known non-terminating case encountered; stopping run")
-		os.Exit(r.Finish())
+// confirmHang replays the published case alone in subprocesses: it is a non-termination only if every one of
+// three replays is still running after ConfirmLimit. A replay that ends, with whatever result, refutes the suspicion.
+func confirmHang(r *evid.Run, desc any) bool {
+	f, err := os.CreateTemp("", "hang-*.json")
+	if err != nil {
+		return false
 	}
-	confirmed := 0
-	path := ""
-	// The replay file path is derived inside Violation; re-derive by listing is overkill: pass case via temp file.
-	if f, err := os.CreateTemp("", "hang-*.json"); err == nil {
-		fmt.Fprintf(f, `{"case":%s}`, mustJSON(desc))
-		f.Close()
-		path = f.Name()
-		defer os.Remove(path)
-	}
-	for i := 0; i < 5 && path != ""; i++ {
-		ctx, cancel := context.WithTimeout(context.Background(), HangLimit)
-		cmd := exec.CommandContext(ctx, os.Args[0], r.Prop, r.Tier, "--replay", path)
-		err := cmd.Run()
+	fmt.Fprintf(f, `{"case":%s}`, mustJSON(desc))
+	f.Close()
+	defer os.Remove(f.Name())
+	for i := 0; i < 3; i++ {
+		ctx, cancel := context.WithTimeout(context.Background(), ConfirmLimit)
+		cmd := exec.CommandContext(ctx, os.Args[0], r.Prop, r.Tier, "--replay", f.Name())
+		cmd.Run()
+		timedOut := ctx.Err() == context.DeadlineExceeded
 		cancel()
-		if ctx.Err() != nil || err != nil {
-			confirmed++
+		if !timedOut {
+			return false
 		}
 	}
-	if confirmed < 5 {
-		fmt.Fprintf(os.Stderr, "UNSTABLE property=%s suspected hang reproduced only %d/5 times; not reported: %v\n", r.Prop, confirmed, desc)
-		r.NotExhaustive("a case exceeded the hang limit once but did not reproduce; run aborted")
-		// cannot un-report; exit as harness trouble without a VIOLATION line
-		os.Exit(2)
-	}
-	os.Exit(r.Finish())
+	return true
 }
 
 func mustJSON(v any) string {
